@@ -104,6 +104,17 @@ def run(res, tier):
         dist['state_units_sweep'] = dist.get('state_units_sweep', 0) + 1
         if info:
             bad.append(dict(info, **desc, state_unit=unit, X=X.tolist()))
+    # bounds above one on data that is more unstable than the bound (the constraint is active and rho != rho**2)
+    osweep = [(f, rho, mi) for f in ('edmd', 'dmdc') for rho in (1.05, 1.1, 1.15) for mi in (1, 3)]
+    for j, (fam, rho, mi) in enumerate(osweep if tier == 'quick' else osweep * 4):
+        try:
+            info, desc, X = one_fit(rng, fam, 'unstable', 2, 1, rho, mi, None)
+        except Exception:  # noqa
+            dist['fit_error'] = dist.get('fit_error', 0) + 1
+            continue
+        dist['bound_above_one_sweep'] = dist.get('bound_above_one_sweep', 0) + 1
+        if info:
+            bad.append(dict(info, **desc, X=X.tolist()))
     # history: the same estimator object refitted after set_params must behave as a fresh one (log included)
     for h in range(3 if tier == 'quick' else 20):
         cls = [L.LmiEdmdSpectralRadiusConstr, L.LmiDmdcSpectralRadiusConstr][h % 2]
